@@ -194,7 +194,13 @@ def run(tier):
     # corpus perturbation, decided by TLC
     files = corpus.sample(60, seed) if quick else corpus.files()
     records, meta = perturb_corpus(ck, files, seed, 2 if quick else 6)
-    verdicts = tracecheck.validate("TraceOptions", records, "c05", ck=ck, chunk=300)
+    def canary(r):
+        o = r.get("opt")
+        if not r.get("accepted") or o.get("t") != "dict" or not o["items"]:
+            return None
+        o["items"] = o["items"][1:]
+        return r
+    verdicts = tracecheck.validate("TraceOptions", records, "c05", ck=ck, chunk=300, canary=canary)
     for tid, v in verdicts.items():
         if v["verdict"] != "ok":
             ck.violation("C05|corpus|%s|%s" % (v["verdict"].split("@")[0], tid.split("|")[0]),
